@@ -573,6 +573,10 @@ def _inc_case(args):
     return {"evaluations": ev, "fingerprints": fps, "violations": vs, "rejected": False, "stats": {"incremental-steps": len(ops) + 1}}
 
 
+def _work(item):
+    return _case(item[1]) if item[0] == "case" else _inc_case(item[1])
+
+
 # ---------------------------------------------------------------------------------------------
 # generators
 # ---------------------------------------------------------------------------------------------
@@ -596,11 +600,11 @@ def _gen_cond(rng, atoms):
         p, q = rng.sample(atoms, 2)
         z = rng.choice(atoms)
         return rng.choice([(f"({p};{q})", "!" + z), (f"({p},{q})", z), (_lit(rng, atoms), f"({p},!{q})"), (f"(!{p};{q})", f"({z};{p})"), (f"!({p},{q})", _lit(rng, atoms))])
-    if r < 0.76:
-        return rnd_formula(rng, atoms, 2, 0.06)[1], rnd_formula(rng, atoms, 2, 0.04)[1]
-    if r < 0.86:  # no world falsifies it
+    if r < 0.86:
+        return rnd_formula(rng, atoms, 2, 0.05)[1], rnd_formula(rng, atoms, 2, 0.03)[1]
+    if r < 0.92:  # no world falsifies it
         return rng.choice([(x, x), ("Top", x), (f"({x};!{x})", y), (x, f"({x},{y})"), ("!" + x, "!" + x), ("Top", "Top")])
-    if r < 0.95:  # no world verifies it: no parameters can exist
+    if r < 0.98:  # no world verifies it: no parameters can exist
         return rng.choice([("Bottom", x), ("!" + x, x), (f"({x},!{x})", y), ("Bottom", "Top"), (x, "!" + x)])
     return rng.choice([(x, "Bottom"), (y, f"({x},!{x})")])  # neither verifiable nor falsifiable
 
@@ -754,7 +758,9 @@ def run(tier, seed):
     rng = random.Random(seed)
     cases = _cases(rng, tier)
     incs = _inc_cases(rng, tier)
-    res = pmap(_case, cases) + pmap(_inc_case, incs)
+    items = [("case", c) for c in cases] + [("inc", c) for c in incs]
+    random.Random(seed + 1).shuffle(items)  # balance the load of the pool's chunks
+    res = pmap(_work, items)
     tot = {"evaluations": 0, "fingerprints": set(), "violations": [], "rejected": 0}
     stats = {}
     for r in res:
